@@ -67,8 +67,8 @@ CHECKS["C05"] = {
 }
 CHECKS["C16"] = {
     "category": "model_checking",
-    "technique": "TLA+ PrunableQueue.tla by TLC, all bounded operation sequences replayed on the real create_input_channel() (T2); cache-bound monitor by TLC on validated replica traces",
-    "text": "Queue: exhaustive operation sequences with exact output comparison. Replica bookkeeping: per-event snapshot of the four vote caches checked "
+    "technique": "TLA+ PrunableQueue.tla by TLC, all bounded operation sequences replayed on the real create_input_channel() (T2) + racing sender threads judged by the spec's content invariants; cache-bound monitor by TLC on validated replica traces",
+    "text": "Queue: exhaustive operation sequences with exact output comparison; after races of 4 sender threads the queue content must satisfy OnePerSenderKind / OnlyValid / KeepsMax / NothingLost. Replica bookkeeping: per-event snapshot of the four vote caches checked "
             "against the committee-size bound, including future-view floods by faulty validators.",
     "note": BFT_NOTE, "design_ref": "§7 C16",
 }
@@ -94,8 +94,9 @@ CHECKS["C04"] = {
 
 CHECKS["C18"] = {
     "category": "model_checking",
-    "technique": "TLA+ AddrBook.tla checked by TLC (Monotone, Authentic, RejectedBatchNoChange, Convergence); every enumerated transition replayed on the real ValidatorAddrsWatch with real signatures (T2)",
-    "text": "All batches of <= 2 announcements over member/outsider keys, versions, timestamps and forgery, from every reachable book: result and resulting "
+    "technique": "TLA+ AddrBook.tla checked by TLC (Monotone, Authentic, RejectedBatchNoChange, Convergence); every enumerated transition replayed on the real ValidatorAddrsWatch with real signatures (T2); AddrDial.tla (book + connection loops + forwarding) checked by TLC and traces of a real running node validated against it (TraceAddrDial.tla, T1)",
+    "text": "Node level: seeded batches through the real push_validator_addrs RPC of a running validator node - the book after every acknowledgement, every connection attempt of the node "
+            "(loopback listeners stand for the addresses) and every forwarded announcement must be explained by the specification. Table: all batches of <= 2 announcements over member/outsider keys, versions, timestamps and forgery, from every reachable book: result and resulting "
             "book of the real update() must equal the specification's; stored entries must verify under their validator's key.",
     "note": "2 committee keys, versions/timestamps 0..1; BLS soundness assumed; batches of 3+ entries not enumerated.",
     "design_ref": "§7 C18",
@@ -131,8 +132,8 @@ CHECKS["C15"] = {
     "text": "Model: every interleaving of calls, grants, cancels, drops and ticks (WindowBound, Fifo, bucket sanity). Code: seeded scripts run twice (with and "
             "without the cancelled calls) on the real limiter; the window bound, arrival-order service and cancel-neutrality are evaluated by TLC on the grant histories. "
             "Per connection: the real rpc::Service (ping, consensus servers) against real clients without client-side rate, a raw mux peer that answers every OPEN in advance, "
-            "and one that claims 1000 streams and uses stream ids beyond the limits; handler starts per window and concurrent handlers are bounded by TLC on the recorded history.",
-    "note": "Manual clock, single-threaded runtime with quiescence between clock advances. Two RPC kinds stand for all; the bound on handler starts carries an additive INFLIGHT term.",
+            "one that stays silent and then says everything at once, and one that claims 1000 streams and uses stream ids beyond the limits; handler starts per window and concurrent handlers are bounded by TLC on the recorded history.",
+    "note": "Manual clock, single-threaded runtime with quiescence between clock advances. Two RPC kinds stand for all; the bound on handler starts carries an additive INFLIGHT term except for raw peers whose request accompanies the OPEN (there the limiter bound itself is checked).",
     "design_ref": "§7 C15",
 }
 
@@ -159,7 +160,7 @@ CHECKS["C12"] = {
 
 CHECKS["C14"] = {
     "category": "model_checking",
-    "technique": "TLA+ Mux.tla (reusable-stream protocol) checked by TLC; per-stream records of two real Muxes over a fragmenting transport evaluated by TLC (TraceMux.tla) + flood scenarios (DATA flood by a real Mux, OPEN/CLOSE flood by a raw peer)",
+    "technique": "TLA+ Mux.tla (reusable-stream protocol) checked by TLC; per-stream records of two real Muxes over a fragmenting transport evaluated by TLC (TraceMux.tla) + flood scenarios (DATA flood by a real Mux, OPEN/CLOSE flood by a raw peer); MuxBuffer.tla (permits before bytes) checked by TLC, its blocked states compared byte-exactly with what the real Mux pulls from a raw flooding peer",
     "text": "Design: isolation, local end-of-stream and matching incarnations for every interleaving of the OPEN/DATA/CLOSE protocol on one stream id. Code: "
             "concurrent transient streams with self-identifying payloads (some abandoned half-read) must pair one-to-one within a capability, complete and "
             "intact both ways; open streams per capability <= min of the announced limits; bytes pulled from the transport under a DATA flood stay within the buffers, frames pulled under a control-frame flood within read_frame_count.",
@@ -183,7 +184,8 @@ CHECKS["C17"] = {
     "technique": "TLA+ Scope.tla checked by TLC over every schedule of every bounded task-tree program; the spec's per-program outcome sets compared with the real scope::run! on a multi-threaded runtime (T2)",
     "text": "For each program the model yields the exact set of outcomes the scope may return (ok / which error / panic) under any schedule; the real scope must stay "
             "within it over many perturbed runs, must have joined every task when it returns, and may never hang when all tasks can finish (cancellation reaches waiting tasks). In a fifth of the runs the waker "
-            "given to ctx.canceled() stalls the cancelling thread, so that a failure recorded only after the cancellation it caused loses the race.",
+            "given to ctx.canceled() stalls the cancelling thread, so that a failure recorded only after the cancellation it caused loses the race. The caller's context rotates through the shapes the model's `outer` flag stands for "
+            "(own deadline, tighter deadline under a finite parent, cascade from the parent, enclosing scope ending); waiting tasks wait on descendants of the scope's context.",
     "note": "Program space: <= 2 (quick) / 3 (thorough) tasks, no nested scopes / blocking tasks; real thread schedules are perturbed, not controlled; no concurrency hook was needed.",
     "design_ref": "§7 C17",
 }
